@@ -6,7 +6,7 @@ open Sdc Sdc.ObjGraph
 
 table lines (before the first `reset`):
   `D <tree>`                                         next class-level default
-  `C <copyDeep> <deepOk> <updDeep> <isContainer> <n> (<desc> <mode> <mode> <get>)*n`   next class
+  `C <copyDeep> <deepOk> <updDeep> <isContainer> <copyLevel1> <updLevel1> <n> (<desc> <mode> <mode> <get>)*n`   next class
      tree  = `i v` | `o id n <tree>*n`
      mode  = `mi v` | `mf <tree>` | `mc` | `md`        get = `gp` | `gi v` | `gl` | `gs`
 ops:
@@ -166,11 +166,12 @@ def stepLine (st : DSt) (line : String) : DSt × String :=
   | "D" :: r => match pTree (fuel ts) r with
     | some (t, []) => ({ st with D := st.D ++ [t] }, "ok")
     | _ => (st, "bad-op")
-  | "C" :: cd :: dk :: ud :: ic :: n :: r => match cd.toNat?, dk.toNat?, ud.toNat?, ic.toNat?, n.toNat? with
-    | some cd, some dk, some ud, some ic, some n => match pProps (fuel ts) n r with
-      | some (ps, []) => ({ st with T := st.T ++ [⟨ps, cd != 0, dk != 0, ud != 0, ic != 0⟩] }, "ok")
+  | "C" :: cd :: dk :: ud :: ic :: c1 :: u1 :: n :: r =>
+    match cd.toNat?, dk.toNat?, ud.toNat?, ic.toNat?, c1.toNat?, u1.toNat?, n.toNat? with
+    | some cd, some dk, some ud, some ic, some c1, some u1, some n => match pProps (fuel ts) n r with
+      | some (ps, []) => ({ st with T := st.T ++ [⟨ps, cd != 0, dk != 0, ud != 0, ic != 0, c1 != 0, u1 != 0⟩] }, "ok")
       | _ => (st, "bad-op")
-    | _, _, _, _, _ => (st, "bad-op")
+    | _, _, _, _, _, _, _ => (st, "bad-op")
   | ["reset"] => ({ st with s := init st.D }, "ok")
   | _ => match parseOp ts with
     | none => (st, "bad-op")
